@@ -2,7 +2,7 @@ use super::hook::TaskLifeCycle;
 use crate::{
     ActTask, Result,
     model::Step,
-    scheduler::{Context, NodeKind, Task, TaskState},
+    scheduler::{Context, Node, NodeKind, Task, TaskState},
 };
 use std::sync::Arc;
 
@@ -29,6 +29,31 @@ fn is_chain_completed(child: &Arc<Task>) -> bool {
             None => return true,
         }
     }
+}
+
+/// an explicit `next` may lead out of the branch (and the steps around it) that the step belongs
+/// to; those tasks are not returned to: close them and what is still open beneath them
+fn leave_enclosing_tasks(ctx: &Context, task: &Arc<Task>, next: &Arc<Node>) -> Result<()> {
+    let mut keep = Vec::new();
+    let mut node = next.parent();
+    while let Some(n) = node {
+        keep.push(n.id().to_string());
+        node = n.parent();
+    }
+
+    let mut parent = task.parent();
+    while let Some(p) = parent {
+        if keep.iter().any(|id| id == p.node.id()) {
+            break;
+        }
+        if !p.state().is_completed() {
+            ctx.skip_tasks_beneath(&p)?;
+            p.set_state(TaskState::Completed);
+            ctx.emit_task(&p)?;
+        }
+        parent = p.parent();
+    }
+    Ok(())
 }
 
 impl ActTask for Step {
@@ -145,6 +170,7 @@ impl ActTask for Step {
                 }
 
                 if let Some(next) = &task.node.next().upgrade() {
+                    leave_enclosing_tasks(ctx, &task, next)?;
                     ctx.sched_task(next);
                     return Ok(false);
                 }
